@@ -187,3 +187,48 @@ func VerifC12Exact() {
 	}
 	nd.Reach("C12.exact")
 }
+
+// VerifC12Include: variables set by assign and capture — whatever their names, the loop-record names
+// included — and the loop variable and forloop of an enclosing loop are visible inside an included
+// template, with exactly their values.
+func VerifC12Include() {
+	v, pv := c12Payload(nd.Choice(3))
+	name := []string{"a", "forloop", "tablerowloop", "x", "include", "size"}[nd.Choice(6)]
+	e := NewEngine()
+	_, perr := e.ParseTemplateAndCache([]byte("<{{ "+name+" }}|{{ x }}|{{ forloop.index }}>"), "p.html", 1)
+	nd.Assert(perr == nil, "included-source-parses")
+	var src, want string
+	switch nd.Choice(4) {
+	case 0: // assigned before the include
+		src = "{% assign " + name + " = v %}{% include 'p.html' %}"
+		want = "<" + pv + "|"
+		if name == "x" {
+			want += pv
+		}
+		want += "|>"
+	case 1: // captured before the include
+		src = "{% capture " + name + " %}c{{ v }}{% endcapture %}{% include 'p.html' %}"
+		want = "<c" + pv + "|"
+		if name == "x" {
+			want += "c" + pv
+		}
+		want += "|>"
+	case 2: // inside a loop: the loop variable and forloop are those of the loop
+		nd.Assume(name == "a")
+		src = "{% assign a = v %}{% for x in (7..8) %}{% include 'p.html' %}{% endfor %}"
+		want = "<" + pv + "|7|1><" + pv + "|8|2>"
+	case 3: // assigned in an earlier iteration, included in a later one and after the loop
+		nd.Assume(name == "a")
+		src = "{% for i in (1..2) %}{% include 'p.html' %}{% assign a = v %}{% endfor %}{% include 'p.html' %}"
+		want = "<||1><" + pv + "||2><" + pv + "||>"
+	}
+	tpl, terr := e.ParseTemplateLocation([]byte(src), "main.html", 1)
+	nd.Assert(terr == nil, "includer-parses")
+	if terr != nil {
+		return
+	}
+	out, err := tpl.RenderString(Bindings{"v": v})
+	nd.Assert(err == nil, "include-no-error")
+	nd.Assert(out == want, "assigned-visible-in-include")
+	nd.Reach("C12.include")
+}
